@@ -73,14 +73,6 @@ def namesForNamespace (hosts : List String) (ns : String) : List String :=
     | some (n, name) => if n != ns && n != "*" then none else some name
     | none => some h
 
-/-- `host.Name.SubsetOf`. -/
-def hostSubsetOf (n o : String) : Bool :=
-  if isWildcarded n then
-    if isWildcarded o then (if n.length < o.length then false else hasSuffixStr (drop1 n) (drop1 o))
-    else false
-  else if isWildcarded o then hasSuffixStr n (drop1 o)
-  else n == o
-
 def addUnique (l : List String) (h : String) : List String := if l.contains h then l else l ++ [h]
 
 /-- `host.Names.Intersection`: for every matching pair the more specific host, first occurrence order. -/
